@@ -225,6 +225,13 @@ func (s *Server) handleValidate(next http.Handler) http.Handler {
 			"source=", getSourceName(r),
 			"key=", getKey(r),
 		)
+		if name := getSourceName(r); name != "" && !filepath.IsLocal(name) {
+			// The source name becomes a directory name below the stage, final
+			// and log roots; it must not lead out of them
+			log.Debug("STS request rejected: non-local source name", name)
+			w.WriteHeader(http.StatusBadRequest)
+			return
+		}
 		gateKeeper := s.getGateKeeper(r)
 		if gateKeeper == nil {
 			log.Debug("STS request rejected: missing gatekeeper")
@@ -535,6 +542,16 @@ func (s *Server) routeData(w http.ResponseWriter, r *http.Request) {
 		return
 	}
 	parts := decoder.GetParts()
+	for _, part := range parts {
+		// File names and rename targets are joined onto the stage and final
+		// roots; they must stay below them
+		if !filepath.IsLocal(part.GetName()) ||
+			(part.GetRenamed() != "" && !filepath.IsLocal(part.GetRenamed())) {
+			log.Debug("STS data request rejected: non-local file name", part.GetName(), part.GetRenamed())
+			w.WriteHeader(http.StatusBadRequest)
+			return
+		}
+	}
 	gateKeeper := s.getGateKeeper(r)
 	gateKeeper.Prepare(parts)
 	index := 0
